@@ -6,6 +6,7 @@ import (
 	"encoding/binary"
 	"fmt"
 	"math"
+	"net"
 	"testing"
 
 	wio "github.com/whatap/golib/io"
@@ -33,6 +34,8 @@ type Op struct {
 
 type Program struct {
 	Ops []Op `json:"ops"`
+	// Seg > 0: the produced stream is additionally read from a connection that delivers it in segments of Seg bytes
+	Seg int `json:"seg,omitempty"`
 }
 
 var kinds = []string{"bool", "byte", "short", "ushort", "int3", "int", "long5", "long", "float", "double",
@@ -340,7 +343,16 @@ func golibWrite(o *wio.DataOutputX, op Op) {
 }
 
 // golibRead performs the matching read and compares with what was written.
-func golibRead(in *wio.DataInputX, op Op) error {
+// heldBytes: byte strings a reader returned, to be compared only after all later reads have been made.
+type heldBytes struct {
+	i         int
+	kind      string
+	got, want []byte
+}
+
+func golibRead(in *wio.DataInputX, op Op) error { return golibReadHold(in, op, nil, 0) }
+
+func golibReadHold(in *wio.DataInputX, op Op, hold *[]heldBytes, opIndex int) error {
 	b := gen.UnHex(op.S)
 	eqI := func(got int64) error {
 		if got != op.I {
@@ -351,6 +363,9 @@ func golibRead(in *wio.DataInputX, op Op) error {
 	eqB := func(got []byte, want []byte) error {
 		if got == nil {
 			return fmt.Errorf("%s: read returned nil", op.K)
+		}
+		if hold != nil {
+			*hold = append(*hold, heldBytes{opIndex, op.K, got, want})
 		}
 		if !bytes.Equal(got, want) {
 			return fmt.Errorf("%s: wrote %d bytes %.40x…, read back %d bytes %.40x…", op.K, len(want), want, len(got), got)
@@ -536,7 +551,47 @@ func runProgram(p Program) *pbt.Result {
 	if in.Available() != 0 {
 		return pbt.Fail("Available()=%d after the last read", in.Available())
 	}
+	// the same stream received from a connection, in segments; byte strings are kept until everything has been read
+	// (a receiver decodes a whole message before it looks at the parts)
+	if p.Seg > 0 && len(got) > 0 {
+		server, client := net.Pipe()
+		stream := append([]byte(nil), got...)
+		go func() {
+			defer server.Close()
+			for off := 0; off < len(stream); {
+				n := p.Seg
+				if off+n > len(stream) {
+					n = len(stream) - off
+				}
+				if _, err := server.Write(stream[off : off+n]); err != nil {
+					return
+				}
+				off += n
+			}
+		}()
+		nin := wio.NewDataInputNet(client)
+		var held []heldBytes
+		var rerr error
+		for i, op := range p.Ops {
+			if rerr = golibReadHold(nin, op, &held, i); rerr != nil {
+				rerr = fmt.Errorf("reading from a connection (segments of %d bytes), op %d: %v", p.Seg, i, rerr)
+				break
+			}
+		}
+		client.Close()
+		if rerr != nil {
+			return &pbt.Result{Err: rerr}
+		}
+		for _, h := range held {
+			if !bytes.Equal(h.got, h.want) {
+				return pbt.Fail("reading from a connection (segments of %d bytes): the %d bytes returned for op %d (%s) no longer equal what was written once the rest of the stream had been read (%.24x… vs %.24x…)", p.Seg, len(h.want), h.i, h.kind, h.got, h.want)
+			}
+		}
+	}
 	classes := []string{fmt.Sprintf("ops=%d", bucket(len(p.Ops)))}
+	if p.Seg > 0 {
+		classes = append(classes, "also-read-from-a-connection")
+	}
 	for k := range kindSet {
 		classes = append(classes, "kind="+k)
 	}
@@ -564,10 +619,14 @@ func bucket(n int) int {
 
 var specPrograms = pbt.Register(pbt.Spec[Program]{
 	Prop: "C01", Name: "programs", Parallel: 8,
-	Rule:  "rapid-generated lists of 1-40 typed write operations over all Write* methods (boundary-biased arguments, nil/empty slices, threshold lengths); non-trivial = program with >= 2 different operation kinds; distinct by produced bytes",
+	Rule:  "rapid-generated lists of 1-40 typed write operations over all Write* methods (boundary-biased arguments, nil/empty slices, threshold lengths); one program in three is also read back from a connection (net.Pipe) delivering the stream in segments of 1 .. 65536 bytes, with the byte strings compared only after the whole stream has been read; non-trivial = program with >= 2 different operation kinds; distinct by produced bytes",
 	Quick: 3000, Thorough: 200000,
 	Draw: func(t *rapid.T) Program {
-		return Program{Ops: rapid.SliceOfN(rapid.Custom(drawOp), 1, 40).Draw(t, "ops")}
+		p := Program{Ops: rapid.SliceOfN(rapid.Custom(drawOp), 1, 40).Draw(t, "ops")}
+		if rapid.IntRange(0, 2).Draw(t, "overconn") == 0 {
+			p.Seg = rapid.SampledFrom([]int{1, 7, 512, 1460, 4096, 8192, 65536}).Draw(t, "seg")
+		}
+		return p
 	},
 	Run: runProgram,
 })
@@ -837,3 +896,62 @@ var sweep40 = pbt.RegisterSweep(pbt.Sweep{Prop: "C01", Name: "sweep40-64",
 	N:    1 << 16, Run: check40, Show: func(i uint64) interface{} { return fmt.Sprintf("top=%#02x bottom=%#02x", byte(i>>8), byte(i)) }})
 
 func TestSweep40(t *testing.T) { sweep40.Check(t, 1) }
+
+// ---- results of the byte helpers are the caller's own ------------------------------------------------
+
+type HeldCase struct {
+	A int64 `json:"a"`
+	B int64 `json:"b"`
+}
+
+// heldHelpers: every package-level helper that returns a freshly encoded byte slice.
+var heldHelpers = map[string]func(v int64) []byte{
+	"ToBytesShort":  func(v int64) []byte { return wio.ToBytesShort(int16(v)) },
+	"ToBytesUShort": func(v int64) []byte { return wio.ToBytesUShort(uint16(v)) },
+	"ToBytesInt3":   func(v int64) []byte { return wio.ToBytesInt3(int32(v)) },
+	"ToBytesInt":    func(v int64) []byte { return wio.ToBytesInt(int32(v)) },
+	"ToBytesLong5":  func(v int64) []byte { return wio.ToBytesLong5(v) },
+	"ToBytesLong":   func(v int64) []byte { return wio.ToBytesLong(v) },
+	"ToBytesFloat":  func(v int64) []byte { return wio.ToBytesFloat(math.Float32frombits(uint32(v))) },
+	"ToBytesDouble": func(v int64) []byte { return wio.ToBytesDouble(math.Float64frombits(uint64(v))) },
+}
+
+var specHeld = pbt.Register(pbt.Spec[HeldCase]{
+	Prop: "C01", Name: "helper-results-are-independent", Parallel: 8,
+	Rule:  "for each of the 8 helpers that return an encoded byte slice: the result for a is kept, the helper is called for b, the kept result is unchanged; overwriting the second result does not change the first; the stream an encoder wrote keeps its bytes while another encoder writes; non-trivial = a != b; distinct by (a, b)",
+	Quick: 4000, Thorough: 400000,
+	Draw: func(t *rapid.T) HeldCase {
+		return HeldCase{A: gen.Int64().Draw(t, "a"), B: gen.Int64().Draw(t, "b")}
+	},
+	Run: func(c HeldCase) *pbt.Result {
+		for name, f := range heldHelpers {
+			r1 := f(c.A)
+			keep := append([]byte(nil), r1...)
+			r2 := f(c.B)
+			if !bytes.Equal(r1, keep) {
+				return pbt.Fail("%s(%d) returned %x; after %s(%d) was called the same slice holds %x", name, c.A, keep, name, c.B, r1)
+			}
+			for i := range r2 {
+				r2[i] ^= 0xff
+			}
+			if !bytes.Equal(r1, keep) {
+				return pbt.Fail("%s: writing into the result for %d changed the result for %d (the two calls returned the same memory)", name, c.B, c.A)
+			}
+		}
+		// two encoders alive together
+		o1, o2 := wio.NewDataOutputX(), wio.NewDataOutputX()
+		o1.WriteLong(c.A)
+		o1.WriteDecimal(c.A)
+		first := append([]byte(nil), o1.ToByteArray()...)
+		held := o1.ToByteArray()
+		o2.WriteLong(c.B)
+		o2.WriteDecimal(c.B)
+		o2.WriteText("another encoder at work")
+		if !bytes.Equal(held, first) || !bytes.Equal(o1.ToByteArray(), first) {
+			return pbt.Fail("the bytes of an encoder that wrote %d changed while another encoder wrote %d", c.A, c.B)
+		}
+		return &pbt.Result{NT: c.A != c.B, Key: []byte(fmt.Sprintf("%d/%d", c.A, c.B))}
+	},
+})
+
+func TestHelperResultsIndependent(t *testing.T) { specHeld.Check(t) }
